@@ -51,7 +51,7 @@ op = st.one_of(
     st.tuples(st.just('del'), st.sampled_from(PREFIXES + ['zz'])),
     st.tuples(st.just('insertNs'), st.sampled_from(PREFIXES), st.sampled_from(URIS), st.integers(0, 6)),
     st.tuples(st.just('deleteNs'), st.integers(0, 3)),
-    st.tuples(st.just('prefix'), st.integers(0, 3), st.sampled_from(PREFIXES)),
+    st.tuples(st.just('prefix'), st.integers(0, 3), st.sampled_from(PREFIXES + ['', ''])),
     st.tuples(st.just('addRule'), st.sampled_from(SELECTORS), st.booleans()),
     st.tuples(st.just('selectorText'), st.integers(0, 4), st.sampled_from(SELECTORS)),
     st.tuples(st.just('move'), st.integers(0, 4)),
@@ -204,6 +204,21 @@ def check(case, ctx):
                         target = rules[o[1] % len(rules)]
                         if target.prefix == '':
                             ctx.event('excluded:prefix-of-default-namespace')
+                            continue
+                        if o[2] == '':
+                            # re-binding to the default prefix changes which URI is the default (excluded, see ASSUMPTIONS) - unless
+                            # another rule declares a default namespace already: then the prefix is taken and the edit must be refused
+                            if not any(r is not target and r.prefix == '' for r in rules):
+                                ctx.event('excluded:new-default-namespace')
+                                continue
+                            ctx.event('prefix:default-while-a-default-exists')
+                            before_text = A.cssText
+                            try:
+                                target.prefix = ''
+                            except xml.dom.DOMException:
+                                pass
+                            if A.cssText != before_text:
+                                raise Violation('ns:second-default-namespace-accepted', f'{step}: {before_text!r} -> {A.cssText!r}')
                             continue
                         target.prefix = o[2]
                 elif kind == 'addRule':
